@@ -84,7 +84,7 @@ CLAIMED = {
     'C16': ('5 C16, 3.3',
             'TLC explores RbqlIsolation: two instances of RbqlEngine over disjoint variables taking steps in every interleaving, for all 81 pairs of 9 query kinds (plain, top, sorted, distinct count, aggregate, unnest, update, runtime-failing, parse-failing) over tables of <= 2 (quick) / <= 3 (thorough) records; invariant: each engine ends with its solo Ref; the mutant in which both engines share one query context (unnest list, aggregation stage: the rbql-js architecture) is rejected. For chosen pairs TLC enumerates every schedule of observable API events (history variable, one terminal state per schedule) and tlc -simulate samples schedules over all pairs; each is replayed with two real threads under a cooperative scheduler that releases exactly one thread per iterator / writer call, and both results are compared with TLC\'s solo results. Histories of <= 6 queries (succeeding, parse-failing, runtime-failing) run in one interpreter and single queries in fresh interpreters are compared with Ref.',
             'Interleaving points are the iterator / writer calls; Python port only (rbql-js keeps a module-global context, documented limitation); schedules exhaustive for 3 (quick) / 7 (thorough) pairs with tables of 2 records, sampled otherwise.',
-            'TLA+ composition of two engine instances model-checked by TLC over all interleavings; TLC-generated schedules replayed with real threads under a deterministic scheduler'),
+            'TLA+ composition of two engine instances model-checked by TLC over all interleavings; TLC-generated schedules replayed with real threads under a deterministic scheduler; query histories (including user-init-code histories, sequential and with the second query run in another thread between two reads) compared with the solo result from a fresh process (the NonInterference statement of RbqlIsolation)'),
 
     'C08': ('5 C08, 3.4',
             'TLC checks QueryText.tla: a word-level shallow-parser machine (keywords matched case-insensitively and longest first within their group, TOP / DISTINCT [COUNT] / SET / FROM a / ASC / DESC / LIMIT handling, comment lines, trailing semicolon, literals skipped as opaque units) applied to Render(q, sigma) gives Actions(q) for every abstract query (head + <= 3 further clauses in any order) and every spelling sigma, with literal contents made of RBQL keywords and metacharacters. Every rendering is turned into text (varying white space) and parsed by the real cleanup_query / separate_string_literals / remove_redundant_input_table_name / separate_actions; the action map must be the one TLC computed. End to end: RbqlEngine cases whose literals hold hostile contents (keywords, "order by a1 desc", "*,=#;()[]", variable-like text, both quotes and a backslash, " left join b on ", "limit 1;", "with (header)") in SELECT items, WHERE, ORDER BY key, UPDATE rhs, UNNEST list and GROUP BY key are rendered under several spellings and run through rbql-py and rbql-js; every result must equal Ref (the literal arrives verbatim).',
@@ -92,8 +92,8 @@ CLAIMED = {
             'TLA+ word-level parser machine model-checked by TLC (spelling invariance theorem); TLC-generated renderings parsed by the real shallow parser; spelling-varied engine replay against Ref'),
     'C09': ('5 C09, 3.5',
             'TLC checks Names.tla: Unescape(Escape(name, q)) = name and the escaped text is a well-formed literal body for every name within the bound over 16 character classes (letter, digit, _, space, both quotes, backslash, brackets, TAB, LF, CR, ., non-ASCII, punctuation, the letter n) plus a punctuation / non-BMP alphabet; the header / no-header machine (caller flag x WITH (header|headers|noheader|noheaders)) never emits the header line in header mode. Every (name, quote style, column position) case is used as a real column name through the list (normalized and direct), pandas, sqlite (quoted identifier) and CSV (header line = TLC\'s RfcQuoteField rendering) back-ends and referenced as a["<TLC\'s escaped text>"] / a[\'..\'] / a.name / bare name: the query must return exactly that column with NR = 1..n and never the header line; caller flag x modifier cases run through query_csv for the input and the join table.',
-            'Names <= 2 (quick) / <= 3 (thorough) characters, headers of two columns (the name at either position); names containing an a.ident / b.ident token excluded as the quantifier says; names with CR are not used as CSV header cells.',
-            'TLA+ escaping functions + header state machine model-checked by TLC; exhaustive replay of TLC-escaped references through four back-ends'),
+            'Names <= 2 (quick) / <= 3 (thorough) characters, headers of two columns (the name at either position); names containing an a.ident / b.ident token excluded as the quantifier says; names with CR are not used as CSV header cells. ReaderApi: tables of <= 3 lines with 1..2 fields, histories of 3 (quick) / 4 (thorough) calls, invariants alone up to 4 lines and 5 calls in the thorough tier; direct-mode names spelled like positional variables (a3 in position 1, b1 in position 2 of the join table) are a fixed list of headers.',
+            'TLA+ escaping functions + header state machine model-checked by TLC; exhaustive replay of TLC-escaped references through four back-ends; TLA+ sequential-object spec of the record iterator (ReaderApi: every call history, NoLossNoDup / HeaderStable / EofTruthful / WarningsOfPrefix) model-checked by TLC and every history replayed into CSVRecordIterator and SqliteRecordIterator'),
 }
 
 PENDING_REASON = 'check not built yet in this session (specification work in progress; see DESIGN.md section 5 for the plan)'
